@@ -115,8 +115,8 @@ class Dusq():
         prior = len(self)
         self._oset.update(vals)
         unique = len(self._oset) > prior  # uniquely added some val from vals to set
-        if unique:
-            if self.put(vals) is False:  # durable unique update but put failed
+        if unique:  # put only the vals newly added to set, durable dedups by serialization not equality
+            if self.put(self._oset[prior:]) is False:  # durable unique update but put failed
                 raise HierError(f"Mismatch between cache and durable at "
                                 f"key={self._key}")
             return True
@@ -138,8 +138,8 @@ class Dusq():
             prior = len(self._oset)
             self._oset.add(val)
             unique = len(self._oset) > prior  # uniquely added val to set
-            result = self.add(val)
-            if unique and result == False:  # durable unique but not added
+            # add to durable only when added to set, durable dedups by serialization not equality
+            if unique and self.add(val) == False:  # durable unique but not added
                 raise HierError(f"Mismatch between cache and durable at "
                                 f"key={self._key}")
             return True
@@ -205,6 +205,7 @@ class Dusq():
         if not isinstance(value, (RegDom, IceRegDom)):
             raise HierError(f"Expected RegDom instance got {value}")
         try:
+            value = self._oset[self._oset.map[value]]  # member equal to value as stored
             self._oset.remove(value)
         except KeyError as ex:
             return False
